@@ -28,6 +28,26 @@ func main() {
 		h.MaxPaths = v
 	}
 	h.Verbose = os.Getenv("V") != ""
+	h.Solver = os.Getenv("SOLVER")
+	switch os.Getenv("FLOAT") {
+	case "real":
+		h.Cfg.Float = sym.FloatReal
+	case "rerr":
+		h.Cfg.Float = sym.FloatRErr
+	}
+	h.Cfg.UFTables = os.Getenv("UF") != ""
+	h.Cfg.MonotoneRounding = os.Getenv("MONO") != ""
+	h.Cfg.MergeFuncs = map[string]bool{}
+	for _, f := range strings.Split(os.Getenv("MERGE"), ",") {
+		if f != "" {
+			h.Cfg.MergeFuncs[f] = true
+		}
+	}
+	h.Cfg.OneShotAsserts = os.Getenv("ONESHOT") != ""
+	if t := os.Getenv("TIMEOUT"); t != "" {
+		v, _ := strconv.Atoi(t)
+		h.TimeoutMs = v * 1000
+	}
 	for _, a := range os.Args[3:] {
 		if a == "trace" {
 			h.Cfg.Trace = true
